@@ -880,6 +880,83 @@ def r046_kind(an, rep):
                 f"-> {got!r}" if ok else f"a function whose code carries {sorted(tset) or 'none'} of the function-type flags decodes with type={got!r}; inspect classifies it as {want!r}")
 
 
+def fold_flag_split(an, flagset):
+    """Folds the decoder's function / non-function split and the statements after it up to the rejection of left-over flags for the given
+    flag names: returns (outcome, top, chain) with outcome 'decodes' or '<raise|assert>: <statement>'."""
+    from sa.feval import BlockEval, BlockOutcome
+    m = an.prog.module("code_data._code_data")
+    sets = {}
+    for name, exprs in m.assigns.items():
+        if len(exprs) == 1 and isinstance(exprs[0], ast.Set):
+            sets[name] = {e.value for e in exprs[0].elts if isinstance(e, ast.Constant)}
+    top = None
+    for f in an.closure("from_code"):
+        if any(isinstance(n, ast.Call) and isinstance(n.func, ast.Name) and n.func.id == "Function" for n in ast.walk(f.node)):
+            top = f
+    if top is None:
+        raise AnalysisError("function-kind inference not recognised")
+    chain = None
+    for st in top.node.body:
+        if isinstance(st, ast.If) and any(isinstance(n, ast.Call) and isinstance(n.func, ast.Name) and n.func.id == "Function" for n in ast.walk(st)):
+            chain = st
+    if chain is None:
+        raise AnalysisError(f"{top.qual}: the function / non-function split is not a top-level if statement")
+    idx = top.node.body.index(chain)
+    flagvar = None
+    for n in ast.walk(inline_locals(top.node, chain.test)):
+        if isinstance(n, ast.Name) and n.id not in sets and n.id not in ("len",):
+            flagvar = n.id
+    tail = [chain]
+    for st in top.node.body[idx + 1:]:
+        tail.append(st)
+        if isinstance(st, ast.If) and any(isinstance(x, ast.Raise) for x in ast.walk(st)) and any(isinstance(x, ast.Name) and x.id == flagvar for x in ast.walk(st.test)):
+            break
+    else:
+        raise AnalysisError(f"{top.qual}: no rejection of left-over flags found after the function / non-function split")
+    pre = [st for st in top.node.body[:idx] if isinstance(st, ast.Assign) and len(st.targets) == 1 and isinstance(st.targets[0], ast.Name)
+           and any(isinstance(x, ast.Name) and x.id == st.targets[0].id for x in ast.walk(chain.test))]
+    placeholders = {}
+    for _attempt in range(8):
+        env = {k: frozenset(v) for k, v in sets.items()}
+        env[flagvar] = set(flagset)
+        env["len"] = len
+        env.update(placeholders)
+        be = BlockEval(lambda name: None, extra={"Function": lambda *a, **k: ("Function", a, tuple(sorted(k.items()))), "cast": lambda t, v: v})
+        be.arbitrary_pop = True
+        try:
+            be.run_block(pre, env)
+            be.run_block(tail, env)
+            return "decodes", top, chain
+        except BlockOutcome as o:
+            return f"{o.kind}: {norm_src(o.node)[:70]}", top, chain
+        except FevalError as ex:
+            msg = str(ex)
+            if msg.startswith("free name ") and msg[10:] not in placeholders and msg[10:] != flagvar:
+                placeholders[msg[10:]] = ()
+                continue
+            raise AnalysisError(f"{top.qual}: flag handling not evaluable for {sorted(flagset)}: {ex}")
+    raise AnalysisError(f"{top.qual}: flag handling not evaluable for {sorted(flagset)}")
+
+
+def r046_many_kinds(an, rep, rule="R11.K"):
+    """A function whose co_flags were altered by hand to carry two or three of GENERATOR / COROUTINE / ASYNC_GENERATOR cannot be described
+    (Function.type holds one): from_code has to raise, not pick one and drop the others."""
+    import itertools as _it
+    rep.rule(rule, "code carrying more than one function-type flag is rejected, not decoded with one of them", 1)
+    kinds = ["ASYNC_GENERATOR", "COROUTINE", "GENERATOR"]
+    bad = []
+    top = chain = None
+    for r in (2, 3):
+        for combo in _it.combinations(kinds, r):
+            outcome, top, chain = fold_flag_split(an, {"NEWLOCALS", "OPTIMIZED", *combo})
+            if outcome == "decodes":
+                bad.append(combo)
+    rep.add(rule, f"{top.qual}::more than one function-type flag is rejected", not bad, loc(top.module, chain),
+            "each of the 4 combinations of two or three function-type flags makes from_code raise" if not bad else
+            f"a function whose co_flags carry {list(bad[0])} (altered by hand) decodes without complaint: Function.type holds one of them, the other is dropped, and to_code() "
+            f"writes co_flags without it - silently lossy data")
+
+
 def r046_module_await(an, rep):
     """Module code compiled with ast.PyCF_ALLOW_TOP_LEVEL_AWAIT (3.8+: the asyncio REPL, IPython, `compile(..., flags=...)`) that awaits at top level
     carries CO_COROUTINE without being a function: it has to decode (with type None), not be rejected."""
